@@ -103,7 +103,7 @@ func ReadOverlay(path string) (map[string][]byte, error) {
 // Load loads the given package patterns of the repository (with the overlay) and builds SSA for everything.
 func Load(repoDir string, overlay map[string][]byte, patterns []string) (*Engine, error) {
 	t0 := time.Now()
-	cfg := &packages.Config{Mode: packages.LoadAllSyntax, Dir: repoDir, Overlay: overlay,
+	cfg := &packages.Config{Mode: packages.LoadAllSyntax | packages.NeedModule, Dir: repoDir, Overlay: overlay,
 		Env: append(os.Environ(), "GOFLAGS=-mod=mod", "GOPROXY=off", "GOSUMDB=off", "GOTOOLCHAIN=local")}
 	pkgs, err := packages.Load(cfg, patterns...)
 	if err != nil {
